@@ -409,9 +409,6 @@ theorem jacLoop_cons (ev : Nat → List Row) (name : Nat) (r : Option (List Nat)
     | error e => rfl
     | ok p => rfl
 
-def blocksOf (sel : Equation → Option (Option (List Nat))) (es : List Equation) : Blocks :=
-  es.filterMap (fun e => (sel e).map (fun r => (e.name, r)))
-
 theorem fullRows_cons (e : Equation) (es : List Equation) (ev : Nat → List Row) :
     fullRows (e :: es) ev = ev e.name ++ fullRows es ev := by
   simp [fullRows]
@@ -726,9 +723,6 @@ theorem isort_sorted (l : List Nat) : (isort l).Pairwise (· ≤ ·) := by
   | nil => simp [isort]
   | cons a l ih => exact insertSorted_sorted a (isort l) ih
 
-/-- dofs of one variable id (empty if the id is not registered) -/
-def dofRangeD (sys : Sys) (i : Nat) : List Nat := (dofRange (dofOrder sys) 0 i).getD []
-
 theorem dofsOf_ok (sys : Sys) (ids : List Nat) (d : List Nat) (h : dofsOf sys ids = .ok d) :
     d = ids.flatMap (dofRangeD sys) := by
   induction ids generalizing d with
@@ -749,11 +743,6 @@ theorem dofsOf_ok (sys : Sys) (ids : List Nat) (d : List Nat) (h : dofsOf sys id
         rw [hd] at h
         cases h
         simp [dofRangeD, hr, ih rs hd]
-
-/-- the variable ids a `variables` argument stands for (`_parse_variable_type`) -/
-def requestedIds (sys : Sys) : Option (List VarItem) → Except Err (List Nat)
-  | none => .ok (sys.vars.map (·.id))
-  | some items => if items.isEmpty then .ok [] else parseVarItems sys items
 
 theorem columnsOf_ok (sys : Sys) (vars : Option (List VarItem)) (cols : List Nat)
     (h : columnsOf sys vars = .ok cols) :
@@ -785,5 +774,359 @@ theorem columnsOf_ok (sys : Sys) (vars : Option (List VarItem)) (cols : List Nat
           rw [hd] at h
           cases h
           exact ⟨ids, by simp [requestedIds, he, hp], by rw [dofsOf_ok sys _ d hd]⟩
+
+/-! ### structure of the image information -/
+
+theorem imageLoop_sublist (m : PerEntity) (gs : List Grid) (rem : List GridId) (t : Nat) :
+    ((imageLoop m gs rem t).1.map (·.1)).Sublist (gs.map (·.id)) := by
+  induction gs generalizing rem t with
+  | nil => simp [imageLoop]
+  | cons g gs ih =>
+    simp only [imageLoop]
+    split
+    · simp only [List.map_cons]
+      exact (ih _ _).cons_cons _
+    · simp only [List.map_cons]
+      exact (ih _ _).cons _
+
+theorem imageLoop_sizes (m : PerEntity) (gs : List Grid) (rem : List GridId) (t : Nat) :
+    ∀ p ∈ (imageLoop m gs rem t).1, ∃ g ∈ gs, g.id = p.1 ∧ p.2.length = rowsOn g m := by
+  induction gs generalizing rem t with
+  | nil => simp [imageLoop]
+  | cons g gs ih =>
+    simp only [imageLoop]
+    split
+    · intro p hp
+      rcases List.mem_cons.mp hp with rfl | hp
+      · exact ⟨g, List.mem_cons_self, rfl, by simp⟩
+      · obtain ⟨g', hg', h1, h2⟩ := ih _ _ p hp
+        exact ⟨g', List.mem_cons_of_mem _ hg', h1, h2⟩
+    · intro p hp
+      obtain ⟨g', hg', h1, h2⟩ := ih _ _ p hp
+      exact ⟨g', List.mem_cons_of_mem _ hg', h1, h2⟩
+
+theorem imageLoop_cover (m : PerEntity) (gs : List Grid) (rem : List GridId) (t : Nat) :
+    ∀ x ∈ rem, x ∈ (imageLoop m gs rem t).1.map (·.1) ∨ x ∈ (imageLoop m gs rem t).2 := by
+  induction gs generalizing rem t with
+  | nil => intro x hx; right; simpa [imageLoop] using hx
+  | cons g gs ih =>
+    intro x hx
+    simp only [imageLoop]
+    split
+    · by_cases hxg : x = g.id
+      · left; simp [hxg]
+      · have hx' : x ∈ rem.erase g.id := (List.mem_erase_of_ne hxg).mpr hx
+        rcases ih (rem.erase g.id) (t + rowsOn g m) x hx' with h | h
+        · left; simp only [List.map_cons]; exact List.mem_cons_of_mem _ h
+        · right; exact h
+    · exact ih rem t x hx
+
+/-! ### the parse result is the selection -/
+
+theorem filterMap_congr' {f g : α → Option β} (l : List α) (h : ∀ a ∈ l, f a = g a) :
+    l.filterMap f = l.filterMap g := by
+  induction l with
+  | nil => rfl
+  | cons a l ih =>
+    simp only [List.filterMap_cons, h a List.mem_cons_self,
+      ih (fun b hb => h b (List.mem_cons_of_mem _ hb))]
+
+theorem parse_blocks (sys : Sys) (hinv : sys.Inv) (req : Request) (blocks : Blocks)
+    (h : parseEquations sys req = .ok blocks) : blocks = blocksOf req.sel sys.eqs := by
+  cases req with
+  | all =>
+    simp only [parseEquations] at h
+    cases h
+    simp [blocksOf, Request.sel, List.filterMap_eq_map']
+  | list items =>
+    simp only [parseEquations] at h
+    cases hd : parseItems sys [] items with
+    | error e => rw [hd] at h; cases h
+    | ok d =>
+      rw [hd] at h
+      cases h
+      rw [parseItems_ok sys items [] d hd]
+      unfold orderBlocks blocksOf
+      apply filterMap_congr'
+      intro e he
+      rw [lookup_resolved sys hinv e he]
+      rfl
+  | dict es =>
+    simp only [parseEquations] at h
+    cases hd : parseItems sys [] (es.map (fun p => Item.dict [p])) with
+    | error e => rw [hd] at h; cases h
+    | ok d =>
+      rw [hd] at h
+      cases h
+      rw [parseItems_ok sys _ [] d hd, entries_of_dict_items]
+      unfold orderBlocks blocksOf
+      apply filterMap_congr'
+      intro e he
+      rw [lookup_resolved sys hinv e he]
+      rfl
+
+/-! ### assemble -/
+
+theorem assemble_eqs (sys : Sys) (ev : Nat → List Row) (jac : Bool) (req : Request)
+    (vars : Option (List VarItem)) :
+    (assemble sys ev jac req vars).1.eqs = sys.eqs ∧ (assemble sys ev jac req vars).1.grids = sys.grids ∧
+      (assemble sys ev jac req vars).1.vars = sys.vars := by
+  unfold assemble
+  cases parseEquations sys req with
+  | error e => exact ⟨rfl, rfl, rfl⟩
+  | ok blocks =>
+    cases jac with
+    | false =>
+      simp only [Bool.false_eq_true, if_false]
+      cases resLoop ev blocks <;> exact ⟨rfl, rfl, rfl⟩
+    | true =>
+      simp only [if_true]
+      cases jacLoop ev blocks 0 with
+      | error e => exact ⟨rfl, rfl, rfl⟩
+      | ok q =>
+        obtain ⟨rows, ix⟩ := q
+        simp only
+        cases columnsOf sys vars <;> exact ⟨rfl, rfl, rfl⟩
+
+theorem assemble_jac_eq (sys : Sys) (ev : Nat → List Row) (req : Request)
+    (vars : Option (List VarItem)) (blocks : Blocks) (rows : List Row) (ix : List (Nat × List Nat))
+    (cols : List Nat) (hp : parseEquations sys req = .ok blocks)
+    (hj : jacLoop ev blocks 0 = .ok (rows, ix)) (hc : columnsOf sys vars = .ok cols) :
+    assemble sys ev true req vars = ({ sys with lastIdx := ix }, .ok ⟨rows, cols, []⟩) := by
+  simp [assemble, hp, hj, hc]
+
+theorem assemble_jac_inv (sys sys' : Sys) (ev : Nat → List Row) (req : Request)
+    (vars : Option (List VarItem)) (out : Out)
+    (h : assemble sys ev true req vars = (sys', .ok out)) :
+    ∃ blocks, parseEquations sys req = .ok blocks ∧
+      jacLoop ev blocks 0 = .ok (out.rows, sys'.lastIdx) ∧ columnsOf sys vars = .ok out.cols ∧
+      out.resOnly = [] ∧ sys' = { sys with lastIdx := sys'.lastIdx } := by
+  unfold assemble at h
+  cases hp : parseEquations sys req with
+  | error e => rw [hp] at h; cases h
+  | ok blocks =>
+    rw [hp] at h
+    simp only [if_true] at h
+    cases hj : jacLoop ev blocks 0 with
+    | error e => rw [hj] at h; cases h
+    | ok q =>
+      obtain ⟨rows, ix⟩ := q
+      rw [hj] at h
+      simp only at h
+      cases hc : columnsOf sys vars with
+      | error e => rw [hc] at h; cases h
+      | ok cols =>
+        rw [hc] at h
+        cases h
+        exact ⟨blocks, rfl, hj, rfl, rfl, rfl⟩
+
+theorem assemble_res_eq (sys : Sys) (ev : Nat → List Row) (req : Request)
+    (vars : Option (List VarItem)) (blocks : Blocks) (vals : List Rat)
+    (hp : parseEquations sys req = .ok blocks) (hr : resLoop ev blocks = .ok vals) :
+    assemble sys ev false req vars = (sys, .ok ⟨[], [], vals.map (fun v => - v)⟩) := by
+  simp [assemble, hp, hr]
+
+/-- Core of the slice theorem: the Jacobian loop on the parsed request. -/
+theorem jac_core (sys : Sys) (ev : Nat → List Row) (req : Request) (hinv : sys.Inv)
+    (hc : Consistent sys ev) (blocks : Blocks) (hp : parseEquations sys req = .ok blocks) :
+    ∃ rows ix, jacLoop ev blocks 0 = .ok (rows, ix) ∧
+      rows.map some = (rowIdx sys ev req).map (fun k => (fullRows sys.eqs ev)[k]?) := by
+  rw [parse_blocks sys hinv req blocks hp]
+  have hb : ∀ e ∈ sys.eqs, ∀ r, req.sel e = some r →
+      ∀ i ∈ localIdx (ev e.name).length r, i < (ev e.name).length := by
+    intro e he r hr
+    exact (localIdx_ok _ r (fun idx hidx => sel_bounds sys ev req hinv hc e he idx (by rw [hr, hidx]))).2
+  obtain ⟨rows, ix, h1, h2⟩ := jacLoop_slice ev req.sel sys.eqs [] 0 hb
+  exact ⟨rows, ix, h1, by simpa [rowIdx] using h2⟩
+
+theorem map_some_comp (f : α → β) (rows : List α) (idx : List Nat) (xs : List α)
+    (h : rows.map some = idx.map (fun k => xs[k]?)) :
+    (rows.map f).map some = idx.map (fun k => (xs.map f)[k]?) := by
+  have : (rows.map f).map some = (rows.map some).map (Option.map f) := by
+    simp [List.map_map]
+  rw [this, h, List.map_map]
+  apply List.map_congr_left
+  intro k _
+  simp
+
+theorem all_congr (f : Nat → Bool) (l1 l2 : List Nat) (h : ∀ g, g ∈ l1 ↔ g ∈ l2) :
+    l1.all f = l2.all f := by
+  rw [Bool.eq_iff_iff]
+  simp only [List.all_eq_true]
+  exact ⟨fun h1 x hx => h1 x ((h x).mpr hx), fun h1 x hx => h1 x ((h x).mp hx)⟩
+
+/-! ### all variables = all columns, in order -/
+
+theorem flatMap_congr' {f g : α → List β} (l : List α) (h : ∀ a ∈ l, f a = g a) :
+    l.flatMap f = l.flatMap g := by
+  induction l with
+  | nil => rfl
+  | cons a l ih =>
+    simp only [List.flatMap_cons, h a List.mem_cons_self,
+      ih (fun b hb => h b (List.mem_cons_of_mem _ hb))]
+
+theorem dofRange_tile (l : List Var) :
+    ∀ off, (l.map (·.id)).Nodup →
+      l.flatMap (fun v => (dofRange l off v.id).getD []) =
+        (List.range ((l.map (·.ndof)).sum)).map (· + off) := by
+  induction l with
+  | nil => intro off _; simp
+  | cons v vs ih =>
+    intro off hn
+    simp only [List.map_cons, List.nodup_cons] at hn
+    have htail : vs.flatMap (fun w => (dofRange (v :: vs) off w.id).getD []) =
+        vs.flatMap (fun w => (dofRange vs (off + v.ndof) w.id).getD []) := by
+      apply flatMap_congr'
+      intro w hw
+      have hne : v.id ≠ w.id := by
+        intro hh
+        apply hn.1
+        rw [hh]
+        exact List.mem_map.mpr ⟨w, hw, rfl⟩
+      simp [dofRange, hne]
+    simp only [List.flatMap_cons, List.map_cons, List.sum_cons]
+    rw [htail, ih (off + v.ndof) hn.2]
+    simp only [dofRange, if_true, Option.getD_some]
+    exact range_shift_append _ _ _
+
+theorem dofRange_isSome (l : List Var) (v : Var) (hv : v ∈ l) :
+    ∀ off, (dofRange l off v.id).isSome = true := by
+  induction l with
+  | nil => cases hv
+  | cons a l ih =>
+    intro off
+    simp only [dofRange]
+    by_cases h : a.id = v.id
+    · simp [h]
+    · rw [if_neg h]
+      rcases List.mem_cons.mp hv with rfl | hv'
+      · exact absurd rfl h
+      · exact ih hv' _
+
+theorem perm_group (gs : List Grid) :
+    ∀ (l : List Var), (gs.map (·.id)).Nodup → (∀ v ∈ l, v.grid ∈ gs.map (·.id)) →
+      l.Perm (gs.flatMap (fun g => l.filter (fun v => v.grid = g.id))) := by
+  induction gs with
+  | nil =>
+    intro l _ hl
+    have : l = [] := by
+      apply List.eq_nil_iff_forall_not_mem.mpr
+      intro v hv
+      have := hl v hv
+      simp at this
+    subst this
+    exact List.Perm.refl _
+  | cons g gs ih =>
+    intro l hg hl
+    simp only [List.map_cons, List.nodup_cons] at hg
+    simp only [List.flatMap_cons]
+    have h1 := (List.filter_append_perm (fun v : Var => decide (v.grid = g.id)) l).symm
+    refine h1.trans (List.Perm.append_left _ ?_)
+    have hl' : ∀ v ∈ l.filter (fun x => !decide (x.grid = g.id)), v.grid ∈ gs.map (·.id) := by
+      intro v hv
+      have hv' := List.mem_filter.mp hv
+      have hne : v.grid ≠ g.id := by simpa using hv'.2
+      have := hl v hv'.1
+      simp only [List.map_cons, List.mem_cons] at this
+      rcases this with h | h
+      · exact absurd h hne
+      · exact h
+    refine (ih _ hg.2 hl').trans ?_
+    have : gs.flatMap (fun g' => (l.filter (fun x => !decide (x.grid = g.id))).filter (fun v => v.grid = g'.id)) =
+        gs.flatMap (fun g' => l.filter (fun v => v.grid = g'.id)) := by
+      apply flatMap_congr'
+      intro g' hg'
+      rw [List.filter_filter]
+      apply List.filter_congr
+      intro v _
+      have hne : g'.id ≠ g.id := by
+        intro hh
+        apply hg.1
+        rw [← hh]
+        exact List.mem_map.mpr ⟨g', hg', rfl⟩
+      by_cases hv : v.grid = g'.id
+      · simp [hv, hne]
+      · simp [hv]
+    rw [this]
+
+theorem dofsOf_succeeds (sys : Sys) (ids : List Nat)
+    (h : ∀ i ∈ ids, (dofRange (dofOrder sys) 0 i).isSome = true) : ∃ d, dofsOf sys ids = .ok d := by
+  induction ids with
+  | nil => exact ⟨[], rfl⟩
+  | cons i is ih =>
+    obtain ⟨d, hd⟩ := ih (fun j hj => h j (List.mem_cons_of_mem _ hj))
+    have hi := h i List.mem_cons_self
+    cases hr : dofRange (dofOrder sys) 0 i with
+    | none => rw [hr] at hi; cases hi
+    | some r => exact ⟨r ++ d, by simp [dofsOf, hr, hd]⟩
+
+theorem columns_all_aux (sys : Sys) (h : sys.VarsOk) :
+    columnsOf sys none = .ok (List.range (numDofs sys)) := by
+  obtain ⟨hv, hg, hvg⟩ := h
+  have hperm : sys.vars.Perm (dofOrder sys) := perm_group sys.grids sys.vars hg hvg
+  have hnd : ((dofOrder sys).map (·.id)).Nodup := (hperm.map _).nodup_iff.mp hv
+  have hsome : ∀ i ∈ sys.vars.map (·.id), (dofRange (dofOrder sys) 0 i).isSome = true := by
+    intro i hi
+    obtain ⟨v, hv', rfl⟩ := List.mem_map.mp hi
+    exact dofRange_isSome (dofOrder sys) v (hperm.mem_iff.mp hv') 0
+  obtain ⟨d, hd⟩ := dofsOf_succeeds sys _ hsome
+  have hdeq := dofsOf_ok sys _ d hd
+  have hd1 : d = sys.vars.flatMap (fun v => dofRangeD sys v.id) := by
+    rw [hdeq, List.flatMap_map]
+  have htile : (dofOrder sys).flatMap (fun v => dofRangeD sys v.id) = List.range (numDofs sys) := by
+    have := dofRange_tile (dofOrder sys) 0 hnd
+    simpa [dofRangeD, numDofs] using this
+  have hp : d.Perm (List.range (numDofs sys)) := by
+    rw [hd1, ← htile]
+    exact hperm.flatMap_right _
+  have hsort : isort d = List.range (numDofs sys) := by
+    apply List.Perm.eq_of_pairwise (le := (· ≤ ·))
+    · intro a b _ _ h1 h2; omega
+    · exact isort_sorted d
+    · exact List.pairwise_lt_range.imp (fun h => Nat.le_of_lt h)
+    · exact (isort_perm d).trans hp
+  simp [columnsOf, hd, hsort]
+
+/-! ### the driver's splitting of a full system -/
+
+theorem split_sound (eqs : List Equation) (hn : (eqs.map (·.name)).Nodup) :
+    ∀ rows : List Row, rows.length = (eqs.map (·.total)).sum →
+      fullRows eqs (evOf (splitFull eqs rows)) = rows ∧
+      ∀ e ∈ eqs, (evOf (splitFull eqs rows) e.name).length = e.total := by
+  induction eqs with
+  | nil =>
+    intro rows h
+    simp only [List.map_nil, List.sum_nil, List.length_eq_zero_iff] at h
+    subst h
+    simp [fullRows]
+  | cons e es ih =>
+    intro rows h
+    simp only [List.map_cons, List.nodup_cons, List.sum_cons] at hn h
+    obtain ⟨ih1, ih2⟩ := ih hn.2 (rows.drop e.total) (by rw [List.length_drop]; omega)
+    have hother : ∀ e' ∈ es, evOf (splitFull (e :: es) rows) e'.name =
+        evOf (splitFull es (rows.drop e.total)) e'.name := by
+      intro e' he'
+      have hne : e.name ≠ e'.name := by
+        intro hh
+        apply hn.1
+        rw [hh]
+        exact List.mem_map.mpr ⟨e', he', rfl⟩
+      simp [evOf, splitFull, lookup, hne]
+    have hhead : evOf (splitFull (e :: es) rows) e.name = rows.take e.total := by
+      simp [evOf, splitFull, lookup]
+    refine ⟨?_, ?_⟩
+    · rw [fullRows_cons, hhead]
+      have : fullRows es (evOf (splitFull (e :: es) rows)) =
+          fullRows es (evOf (splitFull es (rows.drop e.total))) := by
+        unfold fullRows
+        exact flatMap_congr' es hother
+      rw [this, ih1]
+      exact List.take_append_drop _ _
+    · intro e' he'
+      rcases List.mem_cons.mp he' with rfl | he''
+      · rw [hhead, List.length_take]
+        omega
+      · rw [hother e' he'']
+        exact ih2 e' he''
 
 end PorepyVerif.C06
